@@ -413,6 +413,7 @@ PROPS["C10"] = dict(
         dict(name="stress", run="^TestAnonymousChildrenDistinct$", quick=1, thorough=1, timeout_thorough=3000),
         dict(name="many-children", run="^TestManyChildren$", quick=1, thorough=1),
         dict(name="anonymous", run="^TestManyAnonymousChildren$", quick=1, thorough=1),
+        dict(name="shared-args", run="^TestSharedArgumentSlices$", quick=1, thorough=1),
     ],
 )
 
@@ -462,7 +463,7 @@ _ROUND10 = {
     "C17": " Custom short tags may have any length (a given tag is used as given).",
 }
 _ROUND11 = {
-    "C10": " Stage anonymous (TestManyAnonymousChildren): 250000 (thorough: 600000) anonymous children of one parent through WithLevel / New() / WithJSONMode / WithUTCMode: every call hands out a new child although the short random names repeat (about 2.1e9 possible names: some 15 repetitions are expected), and Each visits them all.",
+    "C10": " Stage shared-args (TestSharedArgumentSlices, directed): for each of the eight setters/builders that take a list, two fresh loggers get the same list value (spare capacity), one more attribute each, then the caller overwrites the list: each logger prints exactly its own. Stage anonymous (TestManyAnonymousChildren): 250000 (thorough: 600000) anonymous children of one parent through WithLevel / New() / WithJSONMode / WithUTCMode: every call hands out a new child although the short random names repeat (about 2.1e9 possible names: some 15 repetitions are expected), and Each visits them all.",
     "C01": " In half of the cases (and in extra cells of the exhaustive matrix) the logger answers Enabled questions and prints records BEFORE each change of the debug mode: what it remembers of its answers is then out of date.",
     "C03": " Pool member 0 is handed over as a writer of a value type (a small struct by value) in every third case. A history may register one more level for the error device in the middle (step register), sandwiched by probes at that level on a logger that has logged already.",
     "C04": " Before the record under test: the same record printed in the other formats (1 case of 4), a record whose loose pairs repeat a key (1 of 6); a logger with own attributes prints the record twice and the second one is judged.",
